@@ -388,6 +388,8 @@ OPTS = {
 
 LEX = ["<", ">", "&", "\"", "'", "=", "`", " ", "\t", "\n", "&amp;", "&lt;", "</", "<!--", "-->", "]]>", "<![CDATA[", "</script", "</style", "</title", "</textarea", "<script", "\x00", "é", "\U0001F600", "/", "-", "--", "\\",
        # pieces that make character-reference look-alikes once an ampersand precedes them (text and attribute values)
+       # characters whose entity name html5lib's encoder knows only in the legacy, semicolon-less spelling (upper-case Latin-1)
+       "\xc9", "\xc9mile", "\xd6=1", "\xc6b", "\xc0\xc1", "\xde9",
        "#", "#x", "#60;", "#x3c;", "#62", "#x3E", "#0;", "lt;", "lt", "gt;", "amp;", "quot;", "notit;", "not", ";", "0", "1", "&#", "&lt", "&#x"]
 
 
